@@ -63,6 +63,12 @@ def evaluate_all(est):
                     out[key] = float(getattr(est, 'get_' + X)(T, **kw))
                 except Exception as e:
                     out[key] = 'EXC:' + type(e).__name__
+            # standard errors (libraries with an uncertainty block; the others answer with an exception, recorded as such)
+            for X in ('HoRT_SE', 'SoR_SE', 'CpoR_SE'):
+                try:
+                    out['%s/abs/%s' % (X, T)] = float(getattr(est, 'get_' + X)(T))
+                except Exception as e:
+                    out['%s/abs/%s' % (X, T)] = 'EXC:' + type(e).__name__
     return out
 
 
@@ -142,7 +148,7 @@ class Sim(object):
         except Exception as e:
             self.fail('load-raises:%s' % type(e).__name__, 'Load(%s) raised %s: %s' % (L, type(e).__name__, e))
 
-    def decompose(self, oi, mi):
+    def decompose(self, oi, mi, alt=False):
         if not self.objs:
             return
         oi %= len(self.objs)
@@ -150,11 +156,25 @@ class Sim(object):
         if flag == 'mixed':
             return
         smi = self.pools[L][mi % len(self.pools[L])]
-        self.trace.append(['decompose', oi, mi % len(self.pools[L])])
+        given = smi
+        if alt:
+            # the same species written in another atom order (C03: same descriptors) - a later request for a species the
+            # object has seen before, but numbered differently
+            from vlib import molgen
+            if molgen.has_fused_aromatic(smi):
+                return
+            sp = [s2 for k, s2 in molgen.spellings(smi, 2, 11 + mi) if k == 'renumbered' and s2 != smi]
+            if not sp:
+                return
+            given = sp[-1]
+            self.trace.append(['decompose_alt', oi, mi % len(self.pools[L])])
+            self.ctx.event('op:decompose-other-spelling')
+        else:
+            self.trace.append(['decompose', oi, mi % len(self.pools[L])])
         want = self.base[L]['mols'][smi]['desc']
         other_before = any(s != smi for s in hist) or any(o[0] != L and o[2] for o in self.objs)
         try:
-            d = obj.GetDescriptors(smi)
+            d = obj.GetDescriptors(given)
             got = {str(k): v for k, v in d.items()}
         except Exception as e:
             got, d = 'EXC:' + type(e).__name__, None
@@ -162,7 +182,8 @@ class Sim(object):
         if other_before:
             self.nontrivial = True
         if got != want:
-            self.fail('descriptors-depend-on-history', '%s descriptors of %r: fresh process %s, after this history %s' % (L, smi, want, got))
+            self.fail('descriptors-depend-on-history', '%s descriptors of %r%s: fresh process %s, after this history %s'
+                      % (L, smi, ' (written %r)' % given if given != smi else '', want, got))
         hist.append(smi)
         if d is not None:
             self.decs.append((oi, smi, d))
@@ -187,6 +208,18 @@ class Sim(object):
         if got != want:
             self.fail('estimate-outcome-depends-on-history', '%s Estimate for %r: fresh process %s, here %s' % (L, smi, want, got))
         if e is not None:
+            # the standard error of the new estimate (uncertainty libraries): independent of the estimates made before it
+            w_se = self.base[L]['mols'][smi]['values'].get('HoRT_SE/abs/%s' % TS[0])
+            if isinstance(w_se, float):
+                try:
+                    g_se = float(e.get_HoRT_SE(TS[0]))
+                except Exception as ex:
+                    g_se = 'EXC:' + type(ex).__name__
+                self.ctx.count()
+                self.ctx.event('op:estimate:standard-error-checked')
+                if isinstance(g_se, str) or abs(g_se - w_se) > 1e-9 * max(abs(g_se), abs(w_se), 1e-300):
+                    self.fail('standard-error-depends-on-history', '%s HoRT_SE(%r) for %r right after Estimate: fresh process %r, after this history %r'
+                              % (L, TS[0], smi, w_se, g_se))
             self.ests.append((oi, smi, e, later_other))
             self.ctx.event('op:estimate-after-other-decomposition' if later_other else 'op:estimate-right-after-decomposition')
             if later_other:
@@ -221,6 +254,70 @@ class Sim(object):
             self.fail('%s-depends-on-history:%s' % (tag, 'estimate-made-after-a-later-decomposition' if (el and later_other) else
                                                     'later-decomposition-changed-an-existing-estimate' if (el and moved) else 'other'),
                       '%s %s(%r%s) for %r: fresh process %r, after this history %r' % (L, X, T, ', S_elements=True' if el else '', smi, want, got))
+
+    def evaluate_se(self, ei, ti, xi):
+        """the standard error of an estimate does not depend on which estimates the library object made before"""
+        if not self.ests:
+            return
+        ei %= len(self.ests)
+        oi, smi, e, later_other = self.ests[ei]
+        L = self.objs[oi][0]
+        if self.objs[oi][3] == 'mixed':
+            return
+        T = TS[ti % len(TS)]
+        X = ['HoRT_SE', 'SoR_SE', 'CpoR_SE'][xi % 3]
+        self.trace.append(['evaluate_se', ei, ti % len(TS), xi % 3])
+        want = self.base[L]['mols'][smi]['values']['%s/abs/%s' % (X, T)]
+        with warnings.catch_warnings():
+            warnings.simplefilter('ignore')
+            try:
+                got = float(getattr(e, 'get_' + X)(T))
+            except Exception as ex:
+                got = 'EXC:' + type(ex).__name__
+        self.ctx.count()
+        self.ctx.event('op:evaluate-standard-error%s' % ('' if not isinstance(want, str) else ':no-uncertainty-data'))
+        if not (near(got, want) if isinstance(got, str) or isinstance(want, str) else abs(got - want) <= 1e-9 * max(abs(got), abs(want), 1e-300)):
+            self.fail('standard-error-depends-on-history', '%s %s(%r) for %r: fresh process %r, after this history %r' % (L, X, T, smi, want, got))
+
+    def evaluate_dim(self, ei, ti, ui, which):
+        """a dimensional value in one of several unit strings from the SAME estimate object: H = (H/RT) T R(u), S = (S/R) R(u)
+        with the fresh-process non-dimensional value (C07's identity, here across a history of requests)"""
+        if not self.ests:
+            return
+        ei %= len(self.ests)
+        oi, smi, e, later_other = self.ests[ei]
+        L = self.objs[oi][0]
+        if self.objs[oi][3] == 'mixed':
+            return
+        from pmutt import constants as c
+        T = TS[ti % len(TS)]
+        u = ['J/mol', 'kJ/mol', 'kcal/mol', 'eV', 'cal/mol', 'Eh'][ui % 6]
+        X = ['H', 'S', 'Cp', 'G'][which % 4]
+        self.trace.append(['evaluate_dim', ei, ti % len(TS), ui % 6, which % 4])
+        vals = self.base[L]['mols'][smi]['values']
+        R = c.R(u + '/K')
+        nd = {k: vals['%s/abs/%s' % (k, T)] for k in ('HoRT', 'SoR', 'CpoR', 'GoRT')}
+        need = {'H': ['HoRT'], 'S': ['SoR'], 'Cp': ['CpoR'], 'G': ['GoRT']}[X]
+        with warnings.catch_warnings():
+            warnings.simplefilter('ignore')
+            try:
+                got = float(getattr(e, 'get_' + X)(T, u if X in ('H', 'G') else u + '/K'))
+            except Exception as ex:
+                got = 'EXC:' + type(ex).__name__
+        self.ctx.count()
+        self.ctx.event('op:evaluate-dimensional')
+        if any(isinstance(nd[k], str) for k in need):
+            want = nd[need[0]]
+            ok = got == want
+        else:
+            want = nd[need[0]] * R * (T if X in ('H', 'G') else 1.0)
+            slack = 0.0
+            if X == 'G' and not isinstance(nd['HoRT'], str) and not isinstance(nd['SoR'], str):
+                slack = 1e-12 * (abs(nd['HoRT']) + abs(nd['SoR'])) * T * abs(R)
+            ok = not isinstance(got, str) and abs(got - want) <= 1e-10 * max(abs(got), abs(want), 1e-300) + slack
+        if not ok:
+            self.fail('dimensional-value-depends-on-history', '%s get_%s(%r, %r) for %r: from the fresh-process non-dimensional value %r, after this history %r'
+                      % (L, X, T, u, smi, want, got))
 
     def merge(self, ai, bi):
         if len(self.objs) < 2:
@@ -319,6 +416,18 @@ def run_histories(ctx, fam, n):
         def decompose(self, oi, mi):
             self.sim.decompose(oi, mi)
 
+        @rule(oi=st.integers(0, 8), mi=st.integers(0, 8))
+        def decompose_other_spelling(self, oi, mi):
+            self.sim.decompose(oi, mi, alt=True)
+
+        @rule(ei=st.integers(0, 30), ti=st.integers(0, 2), ui=st.integers(0, 5), which=st.integers(0, 3))
+        def evaluate_dim(self, ei, ti, ui, which):
+            self.sim.evaluate_dim(ei, ti, ui, which)
+
+        @rule(ei=st.integers(0, 30), ti=st.integers(0, 2), xi=st.integers(0, 2))
+        def evaluate_se(self, ei, ti, xi):
+            self.sim.evaluate_se(ei, ti, xi)
+
         @rule(di=st.integers(0, 30))
         def estimate(self, di):
             self.sim.estimate(di)
@@ -363,6 +472,12 @@ def replay(ctx, case):
             sim.load(step[1])
         elif op == 'decompose':
             sim.decompose(step[1], step[2])
+        elif op == 'decompose_alt':
+            sim.decompose(step[1], step[2], alt=True)
+        elif op == 'evaluate_se':
+            sim.evaluate_se(step[1], step[2], step[3])
+        elif op == 'evaluate_dim':
+            sim.evaluate_dim(step[1], step[2], step[3], step[4])
         elif op == 'estimate':
             sim.estimate(step[1])
         elif op == 'evaluate':
